@@ -24,13 +24,68 @@ class FakeElapsed(object):
         return self.el
 
 
+class GuardedQueue(list):
+    """The timer worker's queue; lets the harness run the REAL TimerThreadWorker.run for one pass: run() starts by emptying the
+    queue (it is meant to be called once, at thread start), which the harness suppresses for that one statement."""
+    skip = 0
+
+    def __delitem__(self, k):
+        if self.skip and isinstance(k, slice) and k == slice(None, None, None):
+            self.skip -= 1
+            return
+        list.__delitem__(self, k)
+
+
+class OneShot(object):
+    """stop_event stand-in: lets the while loop of run() execute exactly one pass"""
+    def __init__(self):
+        self.n = 0
+
+    def is_set(self):
+        self.n += 1
+        return self.n > 1
+
+    def set(self):
+        pass
+
+    def clear(self):
+        pass
+
+
+class NoBlock(object):
+    """queue_event stand-in: wait() returns at once (the virtual clock decides what is due)"""
+    def wait(self, timeout=None):
+        return True
+
+    def is_set(self):
+        return True
+
+    def set(self):
+        pass
+
+    def clear(self):
+        pass
+
+
+POLL_ERRORS = []
+
+
 def poll_timers():
-    """One pass of TimerThreadWorker.run's polling loop."""
+    """One pass of TimerThreadWorker.run - the real method, not a copy of its loop."""
     from pyIRDecoder import ir_code
     tw = ir_code._timer_thread_worker
-    for t in tw.queue[:]:
-        if t.run_func():
-            tw.queue.remove(t)
+    if not isinstance(tw.queue, GuardedQueue):
+        tw.queue = GuardedQueue(tw.queue)
+    se, qe = tw.stop_event, tw.queue_event
+    tw.stop_event, tw.queue_event = OneShot(), NoBlock()
+    tw.queue.skip = 1
+    try:
+        tw.run()
+    except Exception as e:  # noqa
+        POLL_ERRORS.append(type(e).__name__)
+    finally:
+        tw.queue.skip = 0
+        tw.stop_event, tw.queue_event = se, qe
 
 
 def drain_process():
@@ -100,6 +155,9 @@ def real_timers(durs, ops):
     q = [timers.index(t) for t in tw.queue]
     armed = [1 if t.timer is not None else 0 for t in timers]
     vlib.drain_workers()
+    if POLL_ERRORS:
+        del POLL_ERRORS[:]
+        return [-99]          # the polling pass raised: the timer thread would be dead
     return rel + [-1] + q + [-1] + armed
 
 
@@ -241,14 +299,20 @@ class Stack(object):
         elif op == 'adv>':
             CLOCK[0] += 400000
         elif op == 'poll':
+            del POLL_ERRORS[:]
             poll_timers()
+            for e in POLL_ERRORS:
+                self.problems.append(('timer thread dies: ' + e, {}))
         elif op == 'run':
             drain_process()
 
     def finish(self):
         for _ in range(3):
             CLOCK[0] += 1000000
+            del POLL_ERRORS[:]
             poll_timers()
+            for e in POLL_ERRORS:
+                self.problems.append(('timer thread dies: ' + e, {}))
             drain_process()
         for k, v in self.down.items():
             if v:
